@@ -494,6 +494,8 @@ class Ncs(Gen):
         for _ in range(n):
             if dup_ok and self.faulty and self.sids() and R.random() < 0.2:
                 out.append(self.gen_story(R.choice(self.sids())))
+            elif self.faulty and R.random() < self.P.get('blank_id_rate', 0.0):
+                out.append(self.gen_story(''))          # schema-shaped, but the id is blank
             else:
                 out.append(self.gen_story())
         return out
@@ -643,6 +645,14 @@ class Ncs(Gen):
             if not srcs:
                 srcs, sshapes = ['nosuch-1'], ['unknown']
             op['sources'], sh['sources'] = srcs, sshapes
+            if t == 'EAStoryDelete' and R.random() < 0.3:
+                # deletes do not happen relative to another story: an element_target, if sent, means nothing
+                if R.random() < 0.5 or not sids:
+                    op['tform'] = 'blank'
+                else:
+                    op['tform'] = 'id'
+                    op['target'] = R.choice(sids)
+                    sh['target'] = 'ignored'
             for s in srcs:
                 if s in self.sids():
                     self.truth = [e for e in self.truth if e[0] != s]
@@ -792,6 +802,7 @@ class Ncs(Gen):
         elif t == 'RODelete':
             if R.random() < 0.25:
                 op['extra'] = [self.gen_meta('roSlug')] + ([self.gen_other(1)] if R.random() < 0.4 else [])
+        self.truth = [e for e in self.truth if e[0] != '']      # a blank id cannot be referred to
         return op
 
     def _reorder(self, ids):
